@@ -242,6 +242,9 @@ struct AlphaOpts
     rot_max = r;
     return *this;
   }
+  /// extra rotation norms / translation magnitudes that are also handed down to the per-part alphabets of composites
+  /// (thetas / tmags only shape the alphabet of a simple group; the parts of a Bundle use their own small menus)
+  std::vector<double> extra_thetas, extra_tmags;
 };
 
 template<typename R>
@@ -262,6 +265,8 @@ void gen_tangents(const AlphaOpts & o, std::vector<Tan<R>> & out)
     AlphaOpts po = o.level == 0 ? AlphaOpts::part() : AlphaOpts::tiny();
     po.rot_max   = o.rot_max;
     po.rot_min   = o.rot_min;
+    po.extra_thetas = o.extra_thetas;
+    po.extra_tmags  = o.extra_tmags;
     std::vector<Tan<A>> ta;
     std::vector<Tan<B>> tb;
     gen_tangents<A>(po, ta);
@@ -277,13 +282,16 @@ void gen_tangents(const AlphaOpts & o, std::vector<Tan<R>> & out)
       }
   } else {
     std::vector<double> ths = R::NRot == 0 ? std::vector<double>{0} : o.thetas;
+    if (R::NRot != 0) ths.insert(ths.end(), o.extra_thetas.begin(), o.extra_thetas.end());
+    std::vector<double> tms = o.tmags;
+    tms.insert(tms.end(), o.extra_tmags.begin(), o.extra_tmags.end());
     std::vector<std::array<double, 3>> dd =
       R::NRot == 3 ? o.dirs : (R::NRot == 1 ? std::vector<std::array<double, 3>>{{1, 0, 0}, {-1, 0, 0}} : std::vector<std::array<double, 3>>{{1, 0, 0}});
     const bool has_trans = D > R::NRot;
     for (double th : ths) {
       if (th > o.rot_max || th < o.rot_min) continue;
       for (auto & d : dd)
-        for (double tm : (has_trans ? o.tmags : std::vector<double>{0}))
+        for (double tm : (has_trans ? tms : std::vector<double>{0}))
           for (int tdir = 0; tdir < (tm == 0 ? 1 : o.ntdir); tdir++) {
             Tan<R> t;
             // orthogonal direction to d
